@@ -366,6 +366,9 @@ func (s *Solver) fallback(extra *Term, wantModel bool) (SatResult, Model) {
 	}
 	tmo := gFallbackTimeout
 	bes := []backend{
+		// a fresh process of the primary solver often decides in a second or two what the long-lived incremental
+		// one gave up on (no learnt state, default tactic selection for a one-shot query)
+		{"z3-5.1-fresh", []string{"z3-new", "-in", "-smt2", fmt.Sprintf("-T:%d", tmo/2)}, ""},
 		{"z3-4.8.12", []string{"z3", "-in", "-smt2", fmt.Sprintf("-T:%d", tmo)}, ""},
 		{"cvc5", []string{"cvc5", "--lang=smt2", "--produce-models", fmt.Sprintf("--tlimit=%d", tmo*1000)}, "(set-logic QF_BV)\n"},
 	}
